@@ -129,6 +129,9 @@ class LogFormatter(logging.Formatter):
                 value = f"{colors['PURPLE']}<redacted:{self.hash_it(str(value))}>{colors['OFF']}"
             elif isinstance(value, dict):
                 value = self.clean_record(value, colorize)
+            elif isinstance(value, list) and any(isinstance(item, (dict, list)) for item in value):
+                # objects inside arrays carry sensitive keys too
+                value = self._clean_items(value, colorize)
             else:
                 value = QUOTES_OR_BACKTICKS_RE.sub(color_value, str(value))
 
@@ -136,6 +139,17 @@ class LogFormatter(logging.Formatter):
             clean_record[clean_key] = f"{colors['VALUE']}{value}{colors['OFF']}"
 
         return clean_record
+
+    def _clean_items(self, items: list, colorize: bool) -> list:
+        """Clean the objects held, at any depth, by a list."""
+        cleaned = []
+        for item in items:
+            if isinstance(item, dict):
+                item = self.clean_record(item, colorize)
+            elif isinstance(item, list):
+                item = self._clean_items(item, colorize)
+            cleaned.append(item)
+        return cleaned
 
     def sanitize_record(self, record: str) -> str:
         """
